@@ -854,16 +854,25 @@ def tree_case(ctx, case, items_obj, items_idx, items_bad, items_hist=None):
                     return [o["oid"]]
                 return [file_oids[pick % len(file_oids)]]
 
-            obs = run_obj(env, src, src, remove=remove)
-            gone = sorted(set(obs["store"]) - set(impl.walk_store(os.path.join(env.dir, "odb1"))))
-            if obs["co_err"] is None:
+            try:
+                obs = run_obj(env, src, src, remove=remove)
+            except Exception as exc:  # noqa: BLE001
+                ctx.oracle_fail(f"C02:incomplete-store-exception:{type(exc).__name__}",
+                                f"checkout of an incomplete store raised {type(exc).__name__} instead of "
+                                f"CheckoutError / FileNotFoundError: {exc}", case)
+                obs = None
+            gone = [] if obs is None else sorted(set(obs["store"]) - set(impl.walk_store(os.path.join(env.dir, "odb1"))))
+            if obs is None:
+                pass
+            elif obs["co_err"] is None:
                 ctx.oracle_fail("C02:checkout-of-incomplete-store-succeeded",
                                 f"checkout succeeded although {gone} was removed from the store", case)
                 exp = vL([vN(1), vL([v_fsmap(obs["out_files"])])])
             else:
                 exp = vL([vN(0), vN(obs["co_err"])])
-            items_bad.append(({**case, "gone": gone},
-                              cpair(cpair(cbytes(src), wt), clist([cbytes(g) for g in gone])), exp))
+            if obs is not None:
+                items_bad.append(({**case, "gone": gone},
+                                  cpair(cpair(cbytes(src), wt), clist([cbytes(g) for g in gone])), exp))
             ctx.count("malformed:removed-" + ("dir-object" if pick == "dir" else "file-object"))
         finally:
             env.close()
@@ -888,6 +897,12 @@ def ignore_case(ctx, case, items_obj):
     env = Env(ctx, tuple(case["configs"][0]))
     try:
         obs = run_obj(env, src, src)
+    except Exception as exc:  # noqa: BLE001
+        ctx.oracle_fail(f"C02:dvcignore-exception:{type(exc).__name__}",
+                        f"staging a tree with a .dvcignore raised {type(exc).__name__}: {exc}", case)
+        ctx.case(case, True)
+        impl.rm_rf(base)
+        return
     finally:
         env.close()
     if "err" not in obs:
@@ -961,7 +976,7 @@ CORPUS = [
 
 def run(ctx):
     quick = ctx.tier == "quick"
-    n_trees = ctx.n(26, 60)
+    n_trees = ctx.n(20, 60)
     n_cfg = 3 if quick else 12
     max_depth, max_files = (4, 14) if quick else (6, 60)
     cases = [dict(c) for c in CORPUS]
@@ -1017,7 +1032,7 @@ def run(ctx):
         {"files": {"a": "6161", "d/x": "00010203", "d/z": "7a"}, "dirs": ["d"],
          "restage": {"config": ["base", "hardlink", True], "edits": [[1, "move"], [0, "move"]], "wipe": "moved"}},
     ]
-    for i in range(ctx.n(12, 48)):
+    for i in range(ctx.n(10, 48)):
         files, dirs = gen_tree(ctx.rng, 3, 8, 2)
         if not any(files.values()):
             continue
